@@ -59,6 +59,7 @@ type FnCtx struct {
 	quiet         int // >0: suppress obligations (spec-level calls)
 	curPos        token.Pos
 	writtenNames  map[string]bool // all heap names written in this function (for frame check)
+	freshT        map[string]types.Type // struct objects allocated by this function (incl. inlined callees)
 	volatileNames map[string]bool // heap names havocked at a monitor acquisition (other threads' writes): exempt from the frame check
 	inAcquire     bool
 	havocAllSeen  bool
@@ -996,7 +997,9 @@ func (fc *FnCtx) havocAllBut(st *State, prefixes []string) {
 	for _, si := range fc.eng.structInvs {
 		var fs []string
 		for f := range si.fields {
-			fs = append(fs, f)
+			if si.stable[f] {
+				fs = append(fs, f)
+			}
 		}
 		sort.Strings(fs)
 		for _, f := range fs {
